@@ -158,6 +158,18 @@ def activeSpace (choose : PC → Option PVal) : List PC → List PC
   | [] => []
   | p :: ps => activeOf choose p ++ activeSpace choose ps
 
+
+/-- subspace keys are of the parent's internal kind (what `subspace()` stores: floats under
+DISCRETE, ints under INTEGER, strings under CATEGORICAL; nothing under DOUBLE/CUSTOM) -/
+def keyKindOK (t : PType) (k : PVal) : Bool :=
+  match t, k with
+  | .discrete, .flt _ => true
+  | .integer, .int _ => true
+  | .categorical, .str _ => true
+  | _, _ => false
+
+def nodeOK (p : PC) : Bool := p.kids.all fun kc => keyKindOK p.h.type kc.1
+
 mutual
 /-- all configs of the tree below and including `p` (preorder) -/
 def allOf : PC → List PC
